@@ -303,9 +303,10 @@ end
 /-! ## totality -/
 
 /-- the report is always produced: on a history numbered in topological order whose refs point to existing commits
-the model never runs into one of the code's `KeyError`s / assertions and never out of fuel (component plug: any
-plug that does not raise; `Plug.none` for a single repository) -/
-theorem report_total {π β} (h : Hist π) (hT : h.Topo) (pl : Plug π β) (hpl : PlugTotal pl)
+the model never runs into one of the code's `KeyError`s / assertions and never out of fuel, whatever the commit
+times are (component plug: any plug that does not raise on bumps with an invariant `J` it maintains; `Plug.none` for a
+single repository) -/
+theorem report_total {π β} (h : Hist π) (hT : h.Topo) (pl : Plug π β) (J : β → Prop) (hpl : PlugTotal pl J)
     (hrefs : ∀ r ∈ h.refs, r.2 < h.commits.length) : ∃ rep, report h pl = .ok rep := by
   have hheads : ∀ b ∈ branchesOf h, b.head < h.commits.length := by
     intro b hb
@@ -322,11 +323,11 @@ theorem report_total {π β} (h : Hist π) (hT : h.Topo) (pl : Plug π β) (hpl 
         · simp at h1; rw [h1]
         · cases h1
     rw [this]; exact hrefs r hr
-  obtain ⟨g, hg⟩ := rgraph_total hT hpl hheads
+  obtain ⟨g, hg, _⟩ := rgraph_total hT hpl hheads
   exact ⟨g.branches.map (repBranch g.rcs), by simp only [report, hg]⟩
 
 theorem report_total_single (h : Hist Unit) (hT : h.Topo) (hrefs : ∀ r ∈ h.refs, r.2 < h.commits.length) :
-    ∃ rep, report h Plug.none = .ok rep := report_total h hT Plug.none plugTotal_none hrefs
+    ∃ rep, report h Plug.none = .ok rep := report_total h hT Plug.none _ plugTotal_none hrefs
 
 /-! ## Non-vacuity: a concrete history (merge, two branches, head of the second inside the first) evaluated by the
 kernel — the hypotheses `Hist.Topo` and `report … = .ok …` are satisfiable and the report is not empty. -/
